@@ -70,12 +70,12 @@ impl Gen<'_> {
                     leaf("ret", *[-1, 0, 5].get(self.rng.gen_range(0..3)).unwrap(), "")
                 }
                 76 => leaf("exit", if self.rng.gen_bool(0.5) { -1 } else { 4 }, ""),
-                77 => leaf("nop", 0, ""),
+                77 => leaf(if self.rng.gen_bool(0.5) { "nop" } else { "nil" }, 0, ""),
                 78 => leaf("trap", 0, ""),
                 79..=81 => {
                     // `command` in front of something
                     let inner = self.gen_leaf(c);
-                    if matches!(inner.k.as_str(), "asg" | "asgc" | "exp" | "trap") {
+                    if matches!(inner.k.as_str(), "asg" | "asgc" | "exp" | "trap" | "nil") {
                         continue;
                     }
                     self.wr(inner, true, false)
